@@ -174,7 +174,7 @@ def generate(rng, opts):
     schedules = [{"base": b, "stub_first": sf} for b in chosen for sf in (False, True)]
     rng.shuffle(schedules)
     return {
-        "world": {"placement": placement, "top": top, "modules": modules, "stubs_other_sp": placement == "stubs_pkg" and rng.random() < 0.5},
+        "world": {"placement": placement, "top": top, "modules": modules, "stubs_other_sp": placement == "stubs_pkg" and rng.random() < 0.5, "stubs_sp_first": rng.random() < 0.5},
         "schedules": schedules,
         "cfg": cfg,
     }
@@ -590,9 +590,11 @@ def execute(plan, ctx):
             tree = None
             with seam.installed(), mon.installed():
                 try:
+                    # the search path holding the stubs package may come before or after the one with the runtime package
+                    sps = list(reversed(w.sp_dirs)) if world.get("stubs_sp_first") else w.sp_dirs
                     top = griffe.load(
                         world["top"],
-                        search_paths=w.sp_dirs,
+                        search_paths=sps,
                         allow_inspection=False,
                         try_relative_path=False,
                         find_stubs_package=world["placement"] == "stubs_pkg",
